@@ -300,7 +300,14 @@ def _call_key(e):
     return k
 
 
-def apalache_outcome(run, sizes, negative=False):
+APALACHE_INVS = {
+    "Inv": "PosIsPermutation /\\ PipelineIsRule /\\ OrderOnly",
+    "Inv2": "PosInjective /\\ UnwindRestores /\\ LadderSymmetric /\\ LadderAdjacent /\\ LadderDegree",
+    "Inv3": "SortEquivariant /\\ RankEquivariant /\\ TiesOnlyMove",
+}
+
+
+def apalache_outcome(run, sizes, negative=False, inv="Inv"):
     """Symbolic check (Apalache, unbounded integers) that the outcome pipeline equals the rule and depends on the
     rank values only through their weak order, for every vector of the given lengths.  Auxiliary to the TLC checks."""
     import shutil
@@ -313,9 +320,9 @@ def apalache_outcome(run, sizes, negative=False):
     results = []
     for n in sizes:
         out_dir = os.path.join(run.wd, "apalache-n%s" % n)
-        cinit = "CInitNeg" if negative else "CInit%d" % n
+        cinit = "CInitNeg" if negative and inv == "Inv" else "CInit%d" % n
         t0 = time.time()
-        r = subprocess.run([exe, "check", "--cinit=" + cinit, "--inv=Inv", "--length=0", "--out-dir=" + out_dir,
+        r = subprocess.run([exe, "check", "--cinit=" + cinit, "--inv=" + inv, "--length=0", "--out-dir=" + out_dir,
                             os.path.join(tlc.SPEC, "OutcomeInt.tla")], capture_output=True, text=True, timeout=3600, cwd=run.wd)
         ok = "EXITCODE: OK" in r.stdout
         err = "Checker has found an error" in r.stdout
@@ -324,9 +331,9 @@ def apalache_outcome(run, sizes, negative=False):
             results.append(err)
             continue
         if not ok:
-            raise MachineryError("Apalache did not establish OutcomeInt!Inv for N=%d:\n%s" % (n, r.stdout[-1500:]))
+            raise MachineryError("Apalache did not establish OutcomeInt!%s for N=%d:\n%s" % (inv, n, r.stdout[-1500:]))
         run.mc_runs.append({"module": "OutcomeInt", "tool": "apalache-mc 0.58 (symbolic, unbounded Int values)", "instance": "N=%d" % n,
-                            "invariant": "PosIsPermutation /\\ PipelineIsRule /\\ OrderOnly", "result": "no error", "wall_s": round(time.time() - t0, 1)})
+                            "invariant": APALACHE_INVS.get(inv, inv), "result": "no error", "wall_s": round(time.time() - t0, 1)})
         results.append(True)
     return results
 
